@@ -39,6 +39,13 @@ NamedTD(id) ==
     [] id = "RecTree" -> TStruct(<<Fld("Name", <<78, 97, 109, 101>>, TScalar("string")),
                                    Fld("Kids", <<75, 105, 100, 115>>, TSlice(TNamed("RecTree"))),
                                    FldO("Idx", <<73, 100, 120>>, <<"omitempty">>, TMap(TPtr(TNamed("RecTree"))))>>)
+    \* self-referential types with a member the library must refuse (kind refuseseq)
+    [] id = "RecBadNode" -> TStruct(<<Fld("V", <<86>>, TScalar("int")), Fld("Next", <<78, 101, 120, 116>>, TPtr(TNamed("RecBadNode"))),
+                                      Fld("C", <<67>>, TNamed("chan"))>>)
+    [] id = "RecBadTree" -> TStruct(<<Fld("Kids", <<75, 105, 100, 115>>, TSlice(TNamed("RecBadTree"))), Fld("F", <<70>>, TNamed("func"))>>)
+    [] id = "RecBadMap" -> TStruct(<<Fld("M", <<77>>, TMap(TPtr(TNamed("RecBadMap")))), Fld("U", <<85>>, TNamed("complex128"))>>)
+    [] id = "RecBadMix" -> TStruct(<<Fld("G", <<71>>, TPtr(TNamed("RecNode"))), Fld("T", <<84>>, TSlice(TNamed("RecTree"))),
+                                     Fld("Next", <<78, 101, 120, 116>>, TPtr(TNamed("RecBadMix"))), Fld("C", <<67>>, TNamed("chan"))>>)
     \* named slice / map types that implement Folder by value (fold as "L<len>" / "M<len>")
     [] id = "FoldSl" -> TSlice(TScalar("string"))
     [] id = "FoldMp" -> TMap(TScalar("int"))
